@@ -97,6 +97,7 @@ structure Event where
 inductive Err where
   | transferType            -- ValueTransferTypeError (validation failed)
   | argCount                -- "event emission value mismatch"
+  | forceNil                -- ForceNilError: `e!` on nil
   | internal (what : String)
   deriving Repr, Inhabited, DecidableEq
 
@@ -146,6 +147,12 @@ inductive Exp where
   | param                       -- the enclosing function's parameter
   | rfield (x : Nat) (f : Nat)  -- field of a resource variable
   | tr (id : Nat) (e : Exp)     -- logging identity function: observes evaluation order
+  | cond (t : Ty) (c a b : Exp) -- `c ? a : b` of static type `t` (the branch value is converted to `t`)
+  | chain (present : Bool) (e : Exp)  -- `mk(present, e)?.n`: optional chaining on a struct value or nil
+  | coalesce (a b : Exp)        -- `a ?? b`, `a` of optional type, `b` of its element type
+  | force (e : Exp)             -- `e!`
+  | cast (t : Ty) (e : Exp)     -- `e as t` (static cast: converts/boxes to `t`)
+  | castq (t : Ty) (e : Exp)    -- `anyS(e) as? t` (`t` not optional): some value / nil by dynamic type
   deriving Repr, Inhabited
 
 /-- `create Ri(args…, inner: <- create …)` -/
@@ -220,6 +227,35 @@ def evalExp (param : Option Val) : Exp → M Val
     let v ← evalExp param e
     trace (.log (toString id))
     pure v
+  | .cond t c a b => do
+    -- only the taken branch is evaluated; its value is converted to the type of the conditional
+    let vc ← evalExp param c
+    match vc with
+    | .bool true => do let v ← evalExp param a; pure (box t v)
+    | .bool false => do let v ← evalExp param b; pure (box t v)
+    | _ => fail (.internal "cond")
+  | .chain present e => do
+    let v ← evalExp param e
+    pure (if present then .some v else .nil)
+  | .coalesce a b => do
+    -- the right operand is evaluated only when the left one is nil
+    let va ← evalExp param a
+    match va with
+    | .nil => evalExp param b
+    | .some v => pure v
+    | _ => fail (.internal "coalesce")
+  | .force e => do
+    let v ← evalExp param e
+    match v with
+    | .nil => fail .forceNil
+    | .some u => pure u
+    | _ => fail (.internal "force")
+  | .cast t e => do
+    let v ← evalExp param e
+    pure (box t v)
+  | .castq t e => do
+    let v ← evalExp param e
+    pure (if hasTy v t then .some v else .nil)
 
 /-- arguments left to right, each transferred to its parameter type with validation -/
 def evalArgs (param : Option Val) : List Exp → List Param → M (List Val)
